@@ -451,8 +451,12 @@ class _FuncAnalysis:
         for p, sites in S2.writes.items():
             a = bind.get(p)
             if a is not None:
+                # a parameter the callee only changes through the object's own methods keeps
+                # that qualification at the caller (state change of a model, not a write into
+                # an array or a table)
                 self.sink(a, node, 'callee %s writes its parameter %s (%s)'
-                          % (callee.qualname, p, sites[0][1]))
+                          % (callee.qualname, p, sites[0][1]),
+                          state=all(len(s_) > 2 and s_[2] for s_ in sites))
         if S2.self_mutates and callee.cls is not None and not callee.is_static and \
                 callee.name != '__init__':
             r = bind.get(params[0])
